@@ -67,6 +67,9 @@ def gen_case(rnd, i):
                 r["fields"] = dict(ma[0]["fields"])
                 r["share"] = "g0"
         x0 = {s: (float(rnd.randint(0, 20)) if rnd.random() < 0.4 else float("%.5g" % rnd.uniform(0, 20))) for s in species}
+        for s in species:
+            if rnd.random() < 0.2:
+                x0[s] = 0.0          # species that start exactly at 0 (the boundary of "non-negative initial conditions")
         sp = {"species": species, "x0": x0, "params": params, "reactions": rx, "rules": []}
         # horizon from the Jacobian norm at x0 (finite differences on the reference rhs)
         try:
@@ -170,7 +173,13 @@ def run_case(case):
         "py_simulate_model(result)": lambda: np.array(py_simulate_model(tp.copy(), Model=M, stochastic=False, return_dataframe=False).py_get_result()),
         "DeterministicSimulator.py_simulate(plain)": lambda: np.array(DeterministicSimulator().py_simulate(prep(ModelCSimInterface(M)), tp.copy()).py_get_result()),
     }
-    if ref1.min() >= 0.5:
+    # the safe interface must coincide with the plain one wherever the solution stays clear of 0, and also AT 0 when every
+    # consuming reaction is mass action (its rate vanishes with its reactant, so "do not consume what is not there" changes nothing)
+    consumers_massaction = all(r["type"] == "massaction" for r in sp["reactions"]
+                               if r["reactants"] or (r.get("delay") and r["delay"].get("reactants")))
+    if ref1.min() >= 0.5 or (consumers_massaction and ref1.min() >= -1e-9):
+        if ref1.min() < 0.5:
+            C["safe_runs_touching_zero"] += 1
         calls["DeterministicSimulator.py_simulate(safe)"] = lambda: np.array(DeterministicSimulator().py_simulate(prep(SafeModelCSimInterface(M)), tp.copy()).py_get_result())
         calls["py_simulate_model(safe=True)"] = lambda: py_simulate_model(tp.copy(), Model=M, stochastic=False, safe=True)[species].to_numpy(dtype=float)
         C["safe_runs"] += 1
